@@ -9,7 +9,7 @@ from c10 import chunks
 LEVEL = "exploration"
 
 # macro sets used here: 0 (default) and 1 (two-segment module, name `event`)
-SETS = [0, 1]
+SETS = [0, 1, 4]
 
 
 def items_for(ms):
@@ -28,6 +28,11 @@ def items_for(ms):
         name + "!();", name + "!(x);", name + "!(MSG);", name + '!(format!("x"));', name + "![1];",
         'let s = "' + S.replace('"', '\\"') + '";',
     ]
+    # modules and names that are configured, but not as a pair
+    for m_, _n in gen.MACRO_SETS[ms]:
+        for _m, n_ in gen.MACRO_SETS[ms]:
+            if (m_, n_) not in gen.MACRO_SETS[ms]:
+                decoys.append(m_ + "::" + n_ + '!("x");')
     out = [(d, None) for d in decoys]
     out.append((None, real1))
     out.append((None, real2))
@@ -108,7 +113,7 @@ def run(tier, v):
     v.count(agg["n"])
     v.coverage["distinct_nontrivial"] += agg["distinct"]
     v.subspace("all sequences of 1..%d items from 27 decoys + 2 real statements x joiner {newline, blank, nothing} x tail {none, newline, "
-               "line comment at EOF without newline} x macro set {default, two-segment module} x style" % maxlen, agg["n"], exhaustive=True,
+               "line comment at EOF without newline} x macro set {default, two-segment module, three modules with different names (+ 6 cross-pair decoys)} x style" % maxlen, agg["n"], exhaustive=True,
                sequences_containing_real_statements=agg["nonvacuous"])
     for s in agg["samples"]:
         v.sample({"file": s[0], "expected_entries": s[1]})
